@@ -2,7 +2,9 @@
 
 stdin {"mode": "tables"}                      -> machine / memory / disk tables read from the imported modules
 stdin {"mode": "bill", "configs": [...], "jobs_for": ...}  -> per config: create(), to_dict(), JSON round trip, from_dict(),
-                                                 quantified_resources of every job before and after the round trip
+                                                 quantified_resources of every job before and after the round trip,
+                                                 res_info = the instance's resource objects (class, name, storage_in_gib / number);
+                                                 config key cores_override sets cfg.cores by hand (core counts outside the tables)
 """
 import json
 import sys
